@@ -592,6 +592,109 @@ theorem gen_assignFrom (f : Nat) (s : DState) (v : Nat) (this : Obj) (other : Ce
   simp only [assignFrom]
   cases release (f + 1) (copyCell s.h other).1 (s.vars v) <;> simp [upd]
 
+/-! ### destructor, constructors, `operator!=`, the static null descriptor -/
+
+theorem gen_destruct (f : Nat) (s : Heap) (this : Obj) (c : Cell) (hc : this.cell = some c) :
+    VariantRep.destruct (release f) s this
+      = (release (f + 1) s c).map (fun s' => (s', ({ this with data := .nullData } : Obj))) := by
+  simp only [VariantRep.destruct, gen_clear f s this c hc]
+  cases release (f + 1) s c <;> rfl
+
+/-- `Variant()` on raw storage: the null cell -/
+theorem gen_ctorNull (s : Heap) (this : Obj) :
+    (VariantRep.ctorNull s this).bind (fun r => r.2.cell.map (fun c' => (r.1, c'))) = some (s, Cell.null) := by
+  simp [VariantRep.ctorNull, Obj.cell]
+
+/-- the scalar converting constructors on raw storage (any content of `this`) = the typed assignment to a fresh null object -/
+theorem gen_ctor_scalar (ds : DblSem) (rd : Nat → Cell) (s : Heap) (this : Obj) :
+    (∀ x, (VariantRep.ctorBool s this x).bind (fun r => r.2.cell.map (fun c' => (r.1, c'))) = leafOp 1 ds rd s .null (.set (.lit (.bool x)))) ∧
+    (∀ x, (VariantRep.ctorDouble s this x).bind (fun r => r.2.cell.map (fun c' => (r.1, c'))) = leafOp 1 ds rd s .null (.set (.lit (.dbl x)))) ∧
+    (∀ x, (VariantRep.ctorInt s this x).bind (fun r => r.2.cell.map (fun c' => (r.1, c'))) = leafOp 1 ds rd s .null (.set (.lit (.int x)))) ∧
+    (∀ x, (VariantRep.ctorUInt s this x).bind (fun r => r.2.cell.map (fun c' => (r.1, c'))) = leafOp 1 ds rd s .null (.set (.lit (.uint x)))) ∧
+    (∀ x, (VariantRep.ctorInt64 s this x).bind (fun r => r.2.cell.map (fun c' => (r.1, c'))) = leafOp 1 ds rd s .null (.set (.lit (.int64 x)))) ∧
+    (∀ x, (VariantRep.ctorUInt64 s this x).bind (fun r => r.2.cell.map (fun c' => (r.1, c'))) = leafOp 1 ds rd s .null (.set (.lit (.uint64 x)))) := by
+  refine ⟨fun x => ?_, fun x => ?_, fun x => ?_, fun x => ?_, fun x => ?_, fun x => ?_⟩ <;>
+    simp [VariantRep.ctorBool, VariantRep.ctorDouble, VariantRep.ctorInt, VariantRep.ctorUInt, VariantRep.ctorInt64, VariantRep.ctorUInt64,
+      leafOp, Obj.cell, Val.type, Val.isBoxed, cellType, release]
+
+/-- …and their plain value: an inline descriptor holding the argument, heap untouched -/
+theorem gen_ctor_scalar_value (s : Heap) (this : Obj) (b : Bool) (d : Nat) (i : Int) :
+    (VariantRep.ctorBool s this b).bind (fun r => r.2.cell.map (fun c' => (r.1, c'))) = some (s, Cell.inl (.bool b)) ∧
+    (VariantRep.ctorDouble s this d).bind (fun r => r.2.cell.map (fun c' => (r.1, c'))) = some (s, Cell.inl (.dbl d)) ∧
+    (VariantRep.ctorInt s this i).bind (fun r => r.2.cell.map (fun c' => (r.1, c'))) = some (s, Cell.inl (.int i)) ∧
+    (VariantRep.ctorUInt s this i).bind (fun r => r.2.cell.map (fun c' => (r.1, c'))) = some (s, Cell.inl (.uint i)) ∧
+    (VariantRep.ctorInt64 s this i).bind (fun r => r.2.cell.map (fun c' => (r.1, c'))) = some (s, Cell.inl (.int64 i)) ∧
+    (VariantRep.ctorUInt64 s this i).bind (fun r => r.2.cell.map (fun c' => (r.1, c'))) = some (s, Cell.inl (.uint64 i)) := by
+  simp [VariantRep.ctorBool, VariantRep.ctorDouble, VariantRep.ctorInt, VariantRep.ctorUInt, VariantRep.ctorInt64, VariantRep.ctorUInt64,
+    Obj.cell, Val.type, Val.isBoxed]
+
+/-- the boxed converting constructors = the typed assignment of the same payload to a fresh null object: payload copied, new block, `ref = 1` -/
+theorem gen_ctor_boxed (s : Heap) (this : Obj) (p : Pay) :
+    (p.type = 7 → (VariantRep.ctorMap s this p).bind (fun r => r.2.cell.map (fun c' => (r.1, c'))) = setBoxedCell 1 s .null p) ∧
+    (p.type = 8 → (VariantRep.ctorList s this p).bind (fun r => r.2.cell.map (fun c' => (r.1, c'))) = setBoxedCell 1 s .null p) ∧
+    (p.type = 9 → (VariantRep.ctorArray s this p).bind (fun r => r.2.cell.map (fun c' => (r.1, c'))) = setBoxedCell 1 s .null p) ∧
+    (p.type = 10 → (VariantRep.ctorString s this p).bind (fun r => r.2.cell.map (fun c' => (r.1, c'))) = setBoxedCell 1 s .null p) := by
+  have hty : (copyPay s p).2.type = p.type := copyPay_type s p
+  refine ⟨fun hp => ?_, fun hp => ?_, fun hp => ?_, fun hp => ?_⟩ <;>
+    (cases hcp : copyPay s p with
+     | mk s1 pc =>
+       rw [hcp] at hty; simp only at hty
+       simp [VariantRep.ctorMap, VariantRep.ctorList, VariantRep.ctorArray, VariantRep.ctorString, setBoxedCell, cellType, hp, release, hcp,
+         allocInit, hty, Deep.alloc, Obj.cell])
+
+/-- the translated `operator!=` is the negation of the value model's `veq` -/
+theorem gen_ne (ds : DblSem) (v o : Val) : VariantCoerce.ne ds (veq ds) (veq ds) v o = (veq ds v o).map (fun b => !b) := by
+  simp only [VariantCoerce.ne, gen_eq]
+
+/-- `Variant::nullData` (src/Variant.cpp + `NullData()`): what the vocabulary reads through a pointer to the sentinel and what the
+    deep model says about a null cell are the constants the constructor stores -/
+theorem gen_nullData (s : Heap) (d : Desc) :
+    Obj.type s ⟨.nullData, d⟩ = some VariantRep.nullDataType ∧ Obj.ref s ⟨.nullData, d⟩ = some VariantRep.nullDataRef ∧
+    descOf s .null = some ⟨VariantRep.nullDataType, VariantRep.nullDataRef, .null⟩ ∧
+    cellType s .null = VariantRep.nullDataType ∧ cellRef s .null = VariantRep.nullDataRef := by
+  simp [Obj.type, Obj.ref, descOf, cellType, cellRef, VariantRep.nullDataType, VariantRep.nullDataRef]
+
+/-! ### fuel: more fuel gives the same result -/
+
+theorem foldlM_sub {f g : Heap → Cell → Option Heap} (h : ∀ s c s', f s c = some s' → g s c = some s') :
+    ∀ (cs : List Cell) (s s' : Heap), cs.foldlM f s = some s' → cs.foldlM g s = some s'
+  | [], s, s', hs => by simpa using hs
+  | c :: t, s, s', hs => by
+    simp only [List.foldlM_cons] at hs ⊢
+    cases hc : f s c with
+    | none => simp [hc] at hs
+    | some s1 =>
+      simp only [hc, Option.bind_eq_bind, Option.bind_some] at hs
+      simp only [h s c s1 hc, Option.bind_eq_bind, Option.bind_some]
+      exact foldlM_sub h t s1 s' hs
+
+theorem release_mono : ∀ (f : Nat) (s : Heap) (c : Cell) (s' : Heap), release f s c = some s' → release (f + 1) s c = some s'
+  | 0, _, _, _, h => by simp [release] at h
+  | f + 1, s, c, s', h => by
+    cases c with
+    | null => simpa [release] using h
+    | inl x => simpa [release] using h
+    | ptr b =>
+      simp only [release] at h ⊢
+      cases hb : s.heap b with
+      | none => simp [hb] at h
+      | some blk =>
+        simp only [hb] at h ⊢
+        by_cases h1 : blk.ref = 1
+        · simp only [h1, if_true] at h ⊢
+          exact foldlM_sub (release_mono f) _ _ _ h
+        · simp only [h1, if_false] at h ⊢
+          exact h
+
+theorem release_mono_le (f g : Nat) (hfg : f ≤ g) (s : Heap) (c : Cell) (s' : Heap) (h : release f s c = some s') : release g s c = some s' := by
+  induction hfg with
+  | refl => exact h
+  | step _ ih => exact release_mono _ _ _ _ ih
+
+theorem releaseAll_mono (f : Nat) (s : Heap) (cs : List Cell) (s' : Heap) (h : releaseAll f s cs = some s') : releaseAll (f + 1) s cs = some s' :=
+  foldlM_sub (release_mono f) cs s s' h
+
+
 /-! ### non-vacuity: a heap with a list block shared by two handles, an object pointing to it -/
 
 def exHeap : Heap := ⟨fun b => if b = 0 then some ⟨2, .list [.inl (.int 1), .null]⟩ else none, 1⟩
